@@ -226,6 +226,14 @@ def end_to_end(ctx):
                 ns.mkdir(e.CLOUD_ROOT + '/1999.01.01')
                 ns.put_file(e.CLOUD_ROOT + '/1999.01.01/1999.01.01-00:00:00.tar.gpg', b'an old cloud backup')
                 stray = (idx + page + ctx.seed) % 2 == 1
+                if not stray:
+                    # the leftover of an interrupted upload: a temporary object for the newest local backup in its (window)
+                    # group; it is not a backup, so that backup must still be uploaded
+                    lg = sorted(g for g in os.listdir(e.w.root) if store.GROUP_RE.match(g))[-1]
+                    lb = sorted(b for b in os.listdir(os.path.join(e.w.root, lg)) if store.BACKUP_RE.match(b))[-1]
+                    ns.mkdir(e.CLOUD_ROOT + '/' + lg)
+                    ns.put_file(e.CLOUD_ROOT + '/%s/.%s.tar.gpg' % (lg, lb), b'partial upload')
+                    stats['temporary_leftovers'] = stats.get('temporary_leftovers', 0) + 1
                 if stray:
                     # an unexpected object inside the old cloud group: the listing is not clean, nothing may be deleted
                     ns.put_file(e.CLOUD_ROOT + '/1999.01.01/README.txt', b'not a backup')
